@@ -40,12 +40,20 @@ static void gate (const char *fmt, ...) {
 	if (write (c_out, b, (size_t) n) != n) _exit (9);
 	if (read (c_in, &c, 1) != 1) _exit (9);
 }
+/* "failnext CALL ERRNO SKIP": after SKIP further invocations of CALL inside API calls, the next one fails with ERRNO without being made */
+static char fn_call[32]; static int fn_errno, fn_skip, fn_ops;       /* fn_ops: the plan is valid for the next API call only */
+static int inject (const char *call) {
+	if (!in_op || !fn_call[0] || strcmp (fn_call, call)) return 0;
+	if (fn_skip > 0) { fn_skip--; return 0; }
+	fn_call[0] = 0; errno = fn_errno; return 1;
+}
 #define REP(...) do { if (in_op) { int e_ = errno; c_say (__VA_ARGS__); errno = e_; } } while (0)
 sem_t *__real_sem_open (const char *, int, ...);
 sem_t *__wrap_sem_open (const char *name, int oflag, ...) {
 	sem_t *r; mode_t mode = 0; unsigned value = 0; va_list ap;
 	if (oflag & O_CREAT) { va_start (ap, oflag); mode = (mode_t) va_arg (ap, int); value = va_arg (ap, unsigned); va_end (ap); }
 	gate ("G sem_open %s %d %u\n", name, oflag, value);
+	if (inject ("sem_open")) { REP ("R sem_open %s %d %u %d %d\n", name, oflag, value, -1, errno); return SEM_FAILED; }
 	r = (oflag & O_CREAT) ? __real_sem_open (name, oflag, mode, value) : __real_sem_open (name, oflag);
 	if (r != SEM_FAILED) { last_sem = r; snprintf (last_semkey, sizeof last_semkey, "%s", name); }
 	REP ("R sem_open %s %d %u %d %d\n", name, oflag, value, r == SEM_FAILED ? -1 : 0, r == SEM_FAILED ? errno : 0);
@@ -55,11 +63,11 @@ int __real_sem_unlink (const char *); int __wrap_sem_unlink (const char *name) {
 int __real_sem_close (sem_t *); int __wrap_sem_close (sem_t *s) { int r; gate ("G sem_close -\n"); r = __real_sem_close (s); REP ("R sem_close - %d %d\n", r, r ? errno : 0); return r; }
 int __real_sem_wait (sem_t *); int __wrap_sem_wait (sem_t *s) { int r; gate ("G sem_wait -\n"); r = __real_sem_wait (s); REP ("R sem_wait - %d %d\n", r, r ? errno : 0); return r; }
 int __real_sem_post (sem_t *); int __wrap_sem_post (sem_t *s) { int r; gate ("G sem_post -\n"); r = __real_sem_post (s); REP ("R sem_post - %d %d\n", r, r ? errno : 0); return r; }
-int __real_shm_open (const char *, int, mode_t); int __wrap_shm_open (const char *name, int oflag, mode_t mode) { int r; gate ("G shm_open %s %d\n", name, oflag); r = __real_shm_open (name, oflag, mode); REP ("R shm_open %s %d %d %d\n", name, oflag, r < 0 ? -1 : 0, r < 0 ? errno : 0); return r; }
+int __real_shm_open (const char *, int, mode_t); int __wrap_shm_open (const char *name, int oflag, mode_t mode) { int r; gate ("G shm_open %s %d\n", name, oflag); if (inject ("shm_open")) { REP ("R shm_open %s %d %d %d\n", name, oflag, -1, errno); return -1; } r = __real_shm_open (name, oflag, mode); REP ("R shm_open %s %d %d %d\n", name, oflag, r < 0 ? -1 : 0, r < 0 ? errno : 0); return r; }
 int __real_shm_unlink (const char *); int __wrap_shm_unlink (const char *name) { int r; gate ("G shm_unlink %s\n", name); r = __real_shm_unlink (name); REP ("R shm_unlink %s %d %d\n", name, r, r ? errno : 0); return r; }
-int __real_ftruncate (int, off_t); int __wrap_ftruncate (int fd, off_t len) { int r; gate ("G ftruncate %ld\n", (long) len); r = __real_ftruncate (fd, len); REP ("R ftruncate %ld %d %d\n", (long) len, r, r ? errno : 0); return r; }
+int __real_ftruncate (int, off_t); int __wrap_ftruncate (int fd, off_t len) { int r; gate ("G ftruncate %ld\n", (long) len); if (inject ("ftruncate")) { REP ("R ftruncate %ld %d %d\n", (long) len, -1, errno); return -1; } r = __real_ftruncate (fd, len); REP ("R ftruncate %ld %d %d\n", (long) len, r, r ? errno : 0); return r; }
 int __real_fstat (int, struct stat *); int __wrap_fstat (int fd, struct stat *st) { int r; gate ("G fstat -\n"); r = __real_fstat (fd, st); REP ("R fstat %ld %d %d\n", r ? -1L : (long) st->st_size, r, r ? errno : 0); return r; }
-void *__real_mmap (void *, size_t, int, int, int, off_t); void *__wrap_mmap (void *a, size_t len, int prot, int flags, int fd, off_t off) { void *r; gate ("G mmap %ld\n", (long) len); r = __real_mmap (a, len, prot, flags, fd, off); REP ("R mmap %ld %d %d\n", (long) len, r == MAP_FAILED ? -1 : 0, r == MAP_FAILED ? errno : 0); return r; }
+void *__real_mmap (void *, size_t, int, int, int, off_t); void *__wrap_mmap (void *a, size_t len, int prot, int flags, int fd, off_t off) { void *r; gate ("G mmap %ld\n", (long) len); if (inject ("mmap")) { REP ("R mmap %ld %d %d\n", (long) len, -1, errno); return MAP_FAILED; } r = __real_mmap (a, len, prot, flags, fd, off); REP ("R mmap %ld %d %d\n", (long) len, r == MAP_FAILED ? -1 : 0, r == MAP_FAILED ? errno : 0); return r; }
 int __real_munmap (void *, size_t); int __wrap_munmap (void *a, size_t len) { int r; gate ("G munmap %ld\n", (long) len); r = __real_munmap (a, len); REP ("R munmap %ld %d %d\n", (long) len, r, r ? errno : 0); return r; }
 
 #define MAXH 8
@@ -75,6 +83,8 @@ static void child_main (void) {
 		line[i] = 0; a2[0] = a3[0] = a4[0] = 0; h = 0;
 		if (sscanf (line, "%31s %d %63s %63s %63s%n", op, &h, a2, a3, a4, &n) < 1) continue;
 		if (!strcmp (op, "gated")) { gated = h; c_say ("D 1 0\n"); continue; }
+		if (!strcmp (op, "failnext")) { char cl[32] = ""; int en = 0, sk = 0; sscanf (line, "%*s %31s %d %d", cl, &en, &sk); snprintf (fn_call, sizeof fn_call, "%s", cl); fn_errno = en; fn_skip = sk; fn_ops = 1; c_say ("D 1 0\n"); continue; }
+		if (fn_ops > 0) fn_ops--; else fn_call[0] = 0;
 		in_op = 1;
 		if (!strcmp (op, "semnew")) {
 			PError *err = NULL; int ecode = 0;
@@ -158,10 +168,12 @@ static int pump (int p, int timeout_ms, char *dline) {
 	}
 }
 /* every op is logged as a call event (with its arguments) and a ret event (with its results) */
+static int pending_inj[16];      /* the next call of process p runs with an injected system-call failure */
 static void emit_call (int p, const char *cmd) {
 	char op[32], a2[64] = "0", a3[64] = "0", a4[64] = ""; int h = 0;
 	sscanf (cmd, "%31s %d %63s %63s %63s", op, &h, a2, a3, a4);
-	vt_emit ("{\"e\":\"call\",\"p\":%d,\"h\":%d,\"op\":\"%s\",\"a\":%ld,\"b\":%ld,\"create\":%d}", p, p * 10 + h, op, atol (a2), atol (a3), !strcmp (a4, "create") ? 1 : 0);
+	vt_emit ("{\"e\":\"call\",\"p\":%d,\"h\":%d,\"op\":\"%s\",\"a\":%ld,\"b\":%ld,\"create\":%d,\"inj\":%d}", p, p * 10 + h, op, atol (a2), atol (a3), !strcmp (a4, "create") ? 1 : 0, pending_inj[p]);
+	pending_inj[p] = 0;
 }
 static void emit_done (int p, const char *cmd, const char *dline) {
 	char op[32]; int h = 0; long r1 = 0, r2 = 0, r3 = 0;
@@ -207,6 +219,10 @@ int main (int argc, char **argv) {
 			int r = pump (p, 10000, dline);
 			if (r == 'D') { emit_done (p, ch[p].pend, dline); ch[p].busy = 0; }
 			else { vt_emit ("{\"e\":\"Stuck\",\"p\":%d,\"cmd\":\"%s\"}", p, ch[p].pend); continue; }
+		}
+		if (c == 'X') {          /* X p CALL ERRNO SKIP: arm a system-call failure for the next call of process p */
+			char b[128]; if (ch[p].busy) continue;
+			snprintf (b, sizeof b, "failnext %s", cmd); send_ (p, b); pump (p, 10000, dline); pending_inj[p] = 1; continue;
 		}
 		if (c == 'P') {
 			int r;
